@@ -2,6 +2,7 @@
 package c18
 
 import (
+	"time"
 	"encoding/json"
 	"fmt"
 	"regexp"
@@ -290,7 +291,7 @@ func TestPropEnumerate(t *testing.T) {
 				ev.Sample("strings", c)
 			}
 		}
-		if v := oracle(c); v != nil && ev.Report("strings", c, v) {
+		if v := watched(oracle)(c); v != nil && ev.Report("strings", c, v) {
 			bad++
 		}
 	})
@@ -356,6 +357,21 @@ func genSeq(t *rapid.T, depth int) string {
 	return b.String()
 }
 
+// watched runs the oracle under a watchdog: a call that does not come back (a lock left held after a
+// failed example, say) is a verdict, not a stalled run
+func watched(f func(Case) *ev.Verdict) func(Case) *ev.Verdict {
+	return func(c Case) *ev.Verdict {
+		done := make(chan *ev.Verdict, 1)
+		go func() { done <- f(c) }()
+		select {
+		case v := <-done:
+			return v
+		case <-time.After(20 * time.Second):
+			return ev.V("no-answer-in-20s", "an operation on the regex schema %q did not return within 20 s", c.Text)
+		}
+	}
+}
+
 func judged(c Case) *ev.Verdict {
 	if nontrivial(c.Text) {
 		ev.NonTrivial("patterns", c.Text)
@@ -367,8 +383,8 @@ func judged(c Case) *ev.Verdict {
 }
 
 func registerAll() {
-	ev.Register("strings", oracle)
-	ev.Register("patterns", judged)
+	ev.Register("strings", watched(oracle))
+	ev.Register("patterns", watched(judged))
 }
 
 func TestPropPatterns(t *testing.T) {
@@ -386,7 +402,7 @@ func TestPropPatterns(t *testing.T) {
 		}
 		probes := rapid.SliceOfN(rapid.SampledFrom([]string{"", "a", "b", "ab", "aZ0", "/", `\`, "a/b", "x@#", "7-7", " "}), 0, 3).Draw(t, "probes")
 		return Case{Text: s, Probes: probes}
-	}, judged)
+	}, watched(judged))
 }
 
 func TestPropRegressions(t *testing.T) {
